@@ -15,6 +15,14 @@ from .astutil import (MUTATOR_METHODS, COPY_METHODS, COPY_FUNCS, VIEW_METHODS, V
                       call_name, func_params, walk_no_nested)
 
 
+def _all_targets(a):
+    if isinstance(a, ast.Assign):
+        return [t for T in a.targets for t in (T.elts if isinstance(T, (ast.Tuple, ast.List)) else [T])]
+    if isinstance(a, (ast.AugAssign, ast.AnnAssign)):
+        return [a.target]
+    return []
+
+
 _OVERWRITE = {"overwrite_a": 0, "overwrite_ab": 0, "overwrite_x": 0, "overwrite_b": 1}
 
 
@@ -53,6 +61,16 @@ class FnAlias:
         self._active.add(key)
         out: Set[str] = set()
         base = path.split(".")[0]
+        if "." in path and base != "self" and base not in self.params:
+            # an attribute of an object held in a LOCAL (`v = getattr(self, k); v.keywords.update(..)`): the object is whatever the local is bound to
+            base_defs = [d for d in self.rd.reaching(node, base) if self.cfg.nodes[d].kind != "entry"]
+            direct = [d for d in self.rd.reaching(node, path) if self.cfg.nodes[d].kind != "entry"
+                      and any(path_of(t) == path for t in _all_targets(self.cfg.nodes[d].ast))]
+            if base_defs and not direct:
+                out = {r + "." + path.split(".", 1)[1] for r in self.roots_of_path(node, base)}
+                self._active.discard(key)
+                self._memo[key] = out
+                return out
         for d in self.rd.reaching(node, path):
             dn = self.cfg.nodes[d]
             if dn.kind == "entry":
@@ -157,6 +175,9 @@ class FnAlias:
                     return self.roots(e.func.value, node)
             if cn in VIEW_FUNCS and e.args:
                 return self.roots(e.args[0], node)
+            if cn == "getattr" and len(e.args) >= 2:
+                # getattr(o, name) hands out the object stored in an attribute of o: whatever o may be, plus an unknown attribute step
+                return {r + ".<attr>" for r in self.roots(e.args[0], node)} or ({path_of(e.args[0]) + ".<attr>"} if path_of(e.args[0]) else set())
             if self.method_resolver is not None and cn and cn.startswith("self.") and cn.count(".") == 1:
                 callee = self.method_resolver(cn[5:])
                 if callee is not None and callee is not self.fn:
